@@ -26,6 +26,9 @@ type System struct {
 	New     func() Instance
 	// Enabled optionally filters operations given the history (may be nil).
 	Enabled func(hist []uint8, op int) bool
+	// OnNewState, if set, is called once for every newly discovered state (e.g. to run a
+	// probe menu against it); a non-empty key is a violation in that state.
+	OnNewState func(inst Instance) (key, what string)
 }
 
 // Violation is a failing history.
@@ -76,6 +79,13 @@ func Run(cfg Config, sys *System) *Result {
 	init := sys.New()
 	seen[init.Key()] = struct{}{}
 	res.States = 1
+	if sys.OnNewState != nil {
+		if vk, vw := sys.OnNewState(init); vk != "" {
+			res.ViolCounts[vk]++
+			firstSeen[vk] = true
+			res.Violations = append(res.Violations, &Violation{Key: vk, What: vw})
+		}
+	}
 	frontier := [][]uint8{{}}
 	for depth := 0; depth < cfg.Depth; depth++ {
 		var next [][]uint8
@@ -133,6 +143,19 @@ func Run(cfg Config, sys *System) *Result {
 				}
 				seen[key] = struct{}{}
 				res.States++
+				if sys.OnNewState != nil {
+					if vk, vw := sys.OnNewState(inst); vk != "" {
+						res.ViolCounts[vk]++
+						if !firstSeen[vk] {
+							firstSeen[vk] = true
+							ops := make([]int, len(nh))
+							for i, o := range nh {
+								ops[i] = int(o)
+							}
+							res.Violations = append(res.Violations, &Violation{Key: vk, What: vw, History: names(sys, nh), Ops: ops})
+						}
+					}
+				}
 				if len(nh) > res.MaxDepth {
 					res.MaxDepth = len(nh)
 				}
